@@ -5,21 +5,26 @@
 //   - the arguments of the boostNovelExtension call in SortFiles,
 //   - a bound of scoreSymbolKind's factor (largest `factor = <lit>` + the `factor += <lit>`s, times `factor *= <lit>` > 1),
 //   - the epsilon of epsilonEqualsOne (index/bits.go),
+//   - scoreSymbolKind and ctags.ParseSymbolKind as tables (per language and kind, modifiers; see kindTables below),
 //   - maxBoostWeight (index/score.go), the cap setScoreWeight applies to the product of the boosts above a
 //     match, as the exact value of the binary64 constant the compiled code compares against.
+//
 // Usage: go run main.go <repo-root>   (prints the Coq file on stdout)
 package main
 
 import (
+	"bytes"
 	"fmt"
 	"go/ast"
 	"go/constant"
 	"go/parser"
+	"go/printer"
 	"go/token"
 	"math/big"
 	"os"
 	"path/filepath"
 	"sort"
+	"strconv"
 	"strings"
 )
 
@@ -73,6 +78,7 @@ func main() {
 	cp := parse("index/contentprovider.go")
 	sc := parse("index/score.go")
 	bits := parse("index/bits.go")
+	ck := parse("internal/ctags/symbol_kind.go")
 
 	want := map[string]bool{"scorePartialWordMatch": true, "scoreWordMatch": true, "scoreBase": true, "scorePartialBase": true,
 		"scoreSymbol": true, "scorePartialSymbol": true, "scoreKindMatch": true, "scoreFactorAtomMatch": true,
@@ -258,8 +264,8 @@ func main() {
 		must(fmt.Errorf("epsilonEqualsOne epsilon not found"))
 	}
 	var b strings.Builder
-	b.WriteString("(* GENERATED by translator/scoreconsts from /repo/index/{contentprovider,score,bits}.go — do not edit *)\n")
-	b.WriteString("From Coq Require Import QArith.\nOpen Scope Q_scope.\n")
+	b.WriteString("(* GENERATED by translator/scoreconsts from /repo/index/{contentprovider,score,bits}.go and internal/ctags/symbol_kind.go — do not edit *)\n")
+	b.WriteString("From Coq Require Import QArith NArith List.\nImport ListNotations.\nOpen Scope Q_scope.\n")
 	names := make([]string, 0, len(got))
 	for n := range got {
 		names = append(names, n)
@@ -273,5 +279,272 @@ func main() {
 	fmt.Fprintf(&b, "Definition c_maxKindFactor : Q := %s.\n", ratOf(maxFactor))
 	fmt.Fprintf(&b, "Definition c_epsilon : Q := %s.\n", eps)
 	fmt.Fprintf(&b, "Definition c_maxBoostWeight : Q := %s.\n", maxBoost)
+	b.WriteString(kindTables(fset, cp, ck))
 	fmt.Print(b.String())
+}
+
+// scoreSymbolKind / ctags.ParseSymbolKind as tables (appended to Generated/ScoreConsts.v):
+//   c_kindNames      the ctags.SymbolKind constants in iota order (name bytes, value)
+//   c_kindDefault    the `default:` factor of the generic switch
+//   c_kindGeneric    the generic `switch kind` (kind value, factor)
+//   c_kindLangs      one entry per `case` of `switch language`: (language names, (kind value, factor) of its
+//                    `switch kind`, modifiers in statement order)
+//                    modifier = (op, cond, suffix, literal): op 0 `factor += lit`, 1 `factor *= lit`;
+//                    cond 0 = "the first rune of sym is upper case" (utf8.DecodeRune + unicode.IsUpper),
+//                    cond 1 = bytes.HasSuffix(filename, []byte(suffix))
+//   c_parseKind      ParseSymbolKind's cases (string after strings.ToLower, kind value), c_parseKindDefault
+// Every statement of the two functions must be of a recognised shape; anything else is an error (the tie to
+// the source would be broken), so that an edit of a factor, a language, a kind or a modifier changes the
+// generated file and re-runs the proof obligations that compute over the tables.
+
+func coqBytes(s string) string {
+	var parts []string
+	for i := 0; i < len(s); i++ {
+		parts = append(parts, strconv.Itoa(int(s[i])))
+	}
+	return "[" + strings.Join(parts, ";") + "]%N"
+}
+
+func render(fset *token.FileSet, n ast.Node) string {
+	var b bytes.Buffer
+	printer.Fprint(&b, fset, n)
+	return b.String()
+}
+
+func findFunc(f *ast.File, name string) *ast.FuncDecl {
+	for _, d := range f.Decls {
+		if fd, ok := d.(*ast.FuncDecl); ok && fd.Name.Name == name && fd.Recv == nil {
+			return fd
+		}
+	}
+	must(fmt.Errorf("func %s not found", name))
+	return nil
+}
+
+// kind constants of internal/ctags/symbol_kind.go: one const block `X SymbolKind = iota; Y; Z ...`
+func kindConsts(f *ast.File) (names []string, val map[string]int) {
+	val = map[string]int{}
+	for _, d := range f.Decls {
+		gd, ok := d.(*ast.GenDecl)
+		if !ok || gd.Tok != token.CONST {
+			continue
+		}
+		first, ok := gd.Specs[0].(*ast.ValueSpec)
+		if !ok || first.Type == nil || render(token.NewFileSet(), first.Type) != "SymbolKind" {
+			continue
+		}
+		if len(first.Values) != 1 || render(token.NewFileSet(), first.Values[0]) != "iota" {
+			must(fmt.Errorf("ctags.SymbolKind constants: first value is not iota"))
+		}
+		for i, s := range gd.Specs {
+			vs := s.(*ast.ValueSpec)
+			if len(vs.Names) != 1 || (i > 0 && (len(vs.Values) != 0 || vs.Type != nil)) {
+				must(fmt.Errorf("ctags.SymbolKind constants: spec %d is not a plain iota continuation", i))
+			}
+			names = append(names, vs.Names[0].Name)
+			val[vs.Names[0].Name] = i
+		}
+	}
+	if len(names) == 0 {
+		must(fmt.Errorf("ctags.SymbolKind constants not found"))
+	}
+	return
+}
+
+// `case ctags.A, ctags.B: factor = lit` clauses of a `switch kind`
+func kindSwitch(fset *token.FileSet, sw *ast.SwitchStmt, val map[string]int, allowDefault bool) (entries []string, def string) {
+	if sw.Init != nil || render(fset, sw.Tag) != "kind" {
+		must(fmt.Errorf("scoreSymbolKind: expected `switch kind`, got switch %s", render(fset, sw.Tag)))
+	}
+	for _, c := range sw.Body.List {
+		cc := c.(*ast.CaseClause)
+		if len(cc.Body) != 1 {
+			must(fmt.Errorf("scoreSymbolKind: case body is not a single assignment: %s", render(fset, cc)))
+		}
+		as, ok := cc.Body[0].(*ast.AssignStmt)
+		if !ok || as.Tok != token.ASSIGN || len(as.Lhs) != 1 || render(fset, as.Lhs[0]) != "factor" {
+			must(fmt.Errorf("scoreSymbolKind: case body is not `factor = <lit>`: %s", render(fset, cc)))
+		}
+		v, ok := litVal(as.Rhs[0])
+		if !ok {
+			must(fmt.Errorf("scoreSymbolKind: non-literal factor: %s", render(fset, as)))
+		}
+		if cc.List == nil {
+			if !allowDefault {
+				must(fmt.Errorf("scoreSymbolKind: unexpected default in a language switch"))
+			}
+			def = ratOf(v)
+			continue
+		}
+		for _, e := range cc.List {
+			se, ok := e.(*ast.SelectorExpr)
+			if !ok || render(fset, se.X) != "ctags" {
+				must(fmt.Errorf("scoreSymbolKind: case expression is not ctags.<Kind>: %s", render(fset, e)))
+			}
+			k, ok := val[se.Sel.Name]
+			if !ok {
+				must(fmt.Errorf("scoreSymbolKind: unknown kind constant %s", se.Sel.Name))
+			}
+			entries = append(entries, fmt.Sprintf("(%d%%N, %s)", k, ratOf(v)))
+		}
+	}
+	return
+}
+
+func kindModifier(fset *token.FileSet, st *ast.IfStmt) string {
+	if st.Else != nil || len(st.Body.List) != 1 {
+		must(fmt.Errorf("scoreSymbolKind: modifier not understood: %s", render(fset, st)))
+	}
+	as, ok := st.Body.List[0].(*ast.AssignStmt)
+	if !ok || len(as.Lhs) != 1 || render(fset, as.Lhs[0]) != "factor" {
+		must(fmt.Errorf("scoreSymbolKind: modifier body not understood: %s", render(fset, st)))
+	}
+	v, ok := litVal(as.Rhs[0])
+	if !ok {
+		must(fmt.Errorf("scoreSymbolKind: non-literal modifier: %s", render(fset, as)))
+	}
+	op := -1
+	switch as.Tok {
+	case token.ADD_ASSIGN:
+		op = 0
+	case token.MUL_ASSIGN:
+		op = 1
+	default:
+		must(fmt.Errorf("scoreSymbolKind: modifier operator %s not understood", as.Tok))
+	}
+	cond := render(fset, st.Cond)
+	switch {
+	case st.Init != nil && render(fset, st.Init) == "ch, _ := utf8.DecodeRune(sym)" && cond == "unicode.IsUpper(ch)":
+		return fmt.Sprintf("(%d%%N, 0%%N, []%%N, %s)", op, ratOf(v))
+	case st.Init == nil:
+		if call, ok := st.Cond.(*ast.CallExpr); ok && render(fset, call.Fun) == "bytes.HasSuffix" && len(call.Args) == 2 && render(fset, call.Args[0]) == "filename" {
+			if conv, ok := call.Args[1].(*ast.CallExpr); ok && render(fset, conv.Fun) == "[]byte" && len(conv.Args) == 1 {
+				if lit, ok := conv.Args[0].(*ast.BasicLit); ok && lit.Kind == token.STRING {
+					s, err := strconv.Unquote(lit.Value)
+					must(err)
+					return fmt.Sprintf("(%d%%N, 1%%N, %s, %s)", op, coqBytes(s), ratOf(v))
+				}
+			}
+		}
+	}
+	must(fmt.Errorf("scoreSymbolKind: modifier condition not understood: %s", render(fset, st)))
+	return ""
+}
+
+func kindTables(fset *token.FileSet, cp, ck *ast.File) string {
+	names, val := kindConsts(ck)
+	var b strings.Builder
+	b.WriteString("(* ---- scoreSymbolKind (index/contentprovider.go) and ctags.ParseSymbolKind (internal/ctags/symbol_kind.go) as tables *)\n")
+	var ns []string
+	for i, n := range names {
+		ns = append(ns, fmt.Sprintf("(%s, %d%%N)", coqBytes(n), i))
+	}
+	fmt.Fprintf(&b, "Definition c_kindNames : list (list N * N) := [%s].\n", strings.Join(ns, "; "))
+	fd := findFunc(cp, "scoreSymbolKind")
+	if got := render(fset, fd.Type); got != "func(language string, filename []byte, sym []byte, kind ctags.SymbolKind) float64" {
+		must(fmt.Errorf("scoreSymbolKind: signature changed: %s", got))
+	}
+	body := fd.Body.List
+	if len(body) != 4 {
+		must(fmt.Errorf("scoreSymbolKind: expected `var factor; switch kind; switch language; return`, got %d statements", len(body)))
+	}
+	if render(fset, body[0]) != "var factor float64" {
+		must(fmt.Errorf("scoreSymbolKind: first statement is %s", render(fset, body[0])))
+	}
+	gsw, ok := body[1].(*ast.SwitchStmt)
+	if !ok {
+		must(fmt.Errorf("scoreSymbolKind: second statement is not a switch"))
+	}
+	gen, def := kindSwitch(fset, gsw, val, true)
+	if def == "" {
+		must(fmt.Errorf("scoreSymbolKind: generic switch has no default"))
+	}
+	fmt.Fprintf(&b, "Definition c_kindDefault : Q := %s.\n", def)
+	fmt.Fprintf(&b, "Definition c_kindGeneric : list (N * Q) := [%s].\n", strings.Join(gen, "; "))
+	lsw, ok := body[2].(*ast.SwitchStmt)
+	if !ok || lsw.Init != nil || render(fset, lsw.Tag) != "language" {
+		must(fmt.Errorf("scoreSymbolKind: third statement is not `switch language`"))
+	}
+	var langs []string
+	for _, c := range lsw.Body.List {
+		cc := c.(*ast.CaseClause)
+		if cc.List == nil {
+			must(fmt.Errorf("scoreSymbolKind: `switch language` has a default"))
+		}
+		var lnames []string
+		for _, e := range cc.List {
+			lit, ok := e.(*ast.BasicLit)
+			if !ok || lit.Kind != token.STRING {
+				must(fmt.Errorf("scoreSymbolKind: language case is not a string literal: %s", render(fset, e)))
+			}
+			s, err := strconv.Unquote(lit.Value)
+			must(err)
+			lnames = append(lnames, coqBytes(s))
+		}
+		if len(cc.Body) == 0 {
+			must(fmt.Errorf("scoreSymbolKind: empty language case"))
+		}
+		ksw, ok := cc.Body[0].(*ast.SwitchStmt)
+		if !ok {
+			must(fmt.Errorf("scoreSymbolKind: language case does not start with `switch kind`: %s", render(fset, cc.Body[0])))
+		}
+		tbl, _ := kindSwitch(fset, ksw, val, false)
+		var mods []string
+		for _, st := range cc.Body[1:] {
+			is, ok := st.(*ast.IfStmt)
+			if !ok {
+				must(fmt.Errorf("scoreSymbolKind: statement after the kind switch not understood: %s", render(fset, st)))
+			}
+			mods = append(mods, kindModifier(fset, is))
+		}
+		langs = append(langs, fmt.Sprintf("([%s], [%s], [%s])", strings.Join(lnames, "; "), strings.Join(tbl, "; "), strings.Join(mods, "; ")))
+	}
+	fmt.Fprintf(&b, "Definition c_kindLangs : list (list (list N) * list (N * Q) * list (N * N * list N * Q)) :=\n  [%s].\n", strings.Join(langs, ";\n   "))
+	if render(fset, body[3]) != "return factor * scoreKindMatch" {
+		must(fmt.Errorf("scoreSymbolKind: return statement is %s", render(fset, body[3])))
+	}
+	// ParseSymbolKind
+	pf := findFunc(ck, "ParseSymbolKind")
+	pb := pf.Body.List
+	if len(pb) != 2 || render(fset, pb[0]) != "kind = strings.ToLower(kind)" {
+		must(fmt.Errorf("ParseSymbolKind: expected `kind = strings.ToLower(kind); switch kind`"))
+	}
+	psw, ok := pb[1].(*ast.SwitchStmt)
+	if !ok || psw.Init != nil || render(fset, psw.Tag) != "kind" {
+		must(fmt.Errorf("ParseSymbolKind: second statement is not `switch kind`"))
+	}
+	var pk []string
+	pdef := ""
+	for _, c := range psw.Body.List {
+		cc := c.(*ast.CaseClause)
+		if len(cc.Body) != 1 {
+			must(fmt.Errorf("ParseSymbolKind: case body not understood"))
+		}
+		rs, ok := cc.Body[0].(*ast.ReturnStmt)
+		if !ok || len(rs.Results) != 1 {
+			must(fmt.Errorf("ParseSymbolKind: case body is not `return <Kind>`"))
+		}
+		k, ok := val[render(fset, rs.Results[0])]
+		if !ok {
+			must(fmt.Errorf("ParseSymbolKind: unknown kind %s", render(fset, rs.Results[0])))
+		}
+		if cc.List == nil {
+			pdef = fmt.Sprintf("%d%%N", k)
+			continue
+		}
+		for _, e := range cc.List {
+			lit, ok := e.(*ast.BasicLit)
+			if !ok || lit.Kind != token.STRING {
+				must(fmt.Errorf("ParseSymbolKind: case is not a string literal"))
+			}
+			s, err := strconv.Unquote(lit.Value)
+			must(err)
+			pk = append(pk, fmt.Sprintf("(%s, %d%%N)", coqBytes(s), k))
+		}
+	}
+	if pdef == "" {
+		must(fmt.Errorf("ParseSymbolKind: no default"))
+	}
+	fmt.Fprintf(&b, "Definition c_parseKind : list (list N * N) :=\n  [%s].\nDefinition c_parseKindDefault : N := %s.\n", strings.Join(pk, "; "), pdef)
+	return b.String()
 }
